@@ -303,6 +303,7 @@ pub fn run(tier: Tier, seed: u64) -> Report {
     p.max_ops = tier.pick(40, 120);
     p.w = [60, 2, 20, 2, 4, 12];
     p.av_latest_pct = 92;
+    p.empty_permille = 30;
     p.max_clients = 2;
     p.small_cfg = true;
     let r = engine::explore("C12", "history", seed, tier.pick(9000, 80_000), || hcase(&p, 25), check_hist);
